@@ -49,8 +49,19 @@ def normalise(got, exp):
     return (('ok', got[1], _hdr_norm(got[2], exp[2]), got[3]), exp[:4])
 
 
-def run_pair(q, text, T, B=None, check_sources=False, mutate_output=False):
+def with_headers(q, ha, hb):
+    """Copy of q whose input / join headers are the given (possibly symbolic) name lists."""
+    import copy
+    q2 = copy.copy(q)
+    q2.ha = ha
+    q2.hb = hb
+    return q2
+
+
+def run_pair(q, text, T, B=None, check_sources=False, mutate_output=False, ha=None, hb=None):
     """(got, expected) for query q (rendered as `text`) over input T and join table B."""
+    if ha is not None or hb is not None:
+        q = with_headers(q, ha, hb)
     Tc = copy_table(T)
     Bc = copy_table(B)
     exp = rel.run(q, Tc, Bc)
@@ -151,8 +162,28 @@ def shape_name(rows):
     return '/'.join(r if r else '-' for r in rows) if rows else 'empty'
 
 
+def header_params(prefix, spec, hlen):
+    """spec: list of concrete names (str) or None (= symbolic name).  -> (params, pre lines, expression)"""
+    params = []
+    pre = []
+    exprs = []
+    for i, nm in enumerate(spec):
+        if nm is None:
+            v = '%s%d' % (prefix, i)
+            params.append((v, 'str'))
+            pre.append('len(%s) <= %d' % (v, hlen))
+            exprs.append(v)
+        else:
+            exprs.append(repr(nm))
+    for i in range(len(exprs)):
+        for j in range(i + 1, len(exprs)):
+            if spec[i] is None or spec[j] is None:
+                pre.append('%s != %s' % (exprs[i], exprs[j]))
+    return params, pre, '[' + ', '.join(exprs) + ']'
+
+
 def query_obl(prop, case_name, q, a_rows, b_rows=None, slen=2, krange=None, irange=None, timeout=60, check_sources=False, mutate_output=False,
-              expect='hold', finding=None, extra_pre=None, text=None, tag='', counting=False, cycle=0):
+              expect='hold', finding=None, extra_pre=None, text=None, tag='', counting=False, cycle=0, ha_spec=None, hb_spec=None, hlen=2):
     """Obligation: for every table of the given shape, real engine == reference on query case `case_name` of property module `prop`."""
     pa, pb1, po1, texpr = table_params('a', a_rows, slen, krange, irange)
     params, pre_b, pre_o = list(pa), list(pb1), list(po1)
@@ -165,15 +196,29 @@ def query_obl(prop, case_name, q, a_rows, b_rows=None, slen=2, krange=None, iran
     if not params:
         params = [('dummy', 'int')]
         pre_b = ['dummy == 0']
+    haexpr = hbexpr = 'None'
+    hpre = []
+    if ha_spec is not None:
+        hp, hpre1, haexpr = header_params('ha', ha_spec, hlen)
+        params += hp
+        hpre += hpre1
+    if hb_spec is not None:
+        hp, hpre2, hbexpr = header_params('hb', hb_spec, hlen)
+        params += hp
+        hpre += hpre2
+    pre_b = [p for p in hpre if p.startswith('len(')] + pre_b
+    pre_o = pre_o + [p for p in hpre if not p.startswith('len(')]
     text = text if text is not None else rel.render(q)
     imports = 'from vf import qh\nfrom vf.props import %s as P\nQ = P.CASES[%r]\nTEXT = %r\n' % (prop.lower(), case_name, text)
     body = indent('''
 T = %s
 B = %s
 return %s
-''' % (texpr, bexpr, ('qh.run_pair_counting(Q, TEXT, T, cycle=%d)' % cycle) if counting else ('qh.run_pair(Q, TEXT, T, B, check_sources=%r, mutate_output=%r)' % (check_sources, mutate_output))))
+''' % (texpr, bexpr, ('qh.run_pair_counting(Q, TEXT, T, cycle=%d)' % cycle) if counting else ('qh.run_pair(Q, TEXT, T, B, check_sources=%r, mutate_output=%r, ha=%s, hb=%s)' % (check_sources, mutate_output, haexpr, hbexpr))))
     src = harness(imports, params, pre_b + pre_o + (extra_pre or []), body)
     name = '%s%s[A=%s%s]' % (case_name, tag, shape_name(a_rows), (',B=' + shape_name(b_rows)) if b_rows is not None else '')
     bounds = 'every input table of shape %s (s=str len<=%d, o=str|None, i=int, k=int<%s, d=digit string)%s' % (
         shape_name(a_rows), slen, krange, (' and join table of shape ' + shape_name(b_rows)) if b_rows is not None else '')
+    if ha_spec is not None:
+        bounds += '; input header %r%s (None = any distinct Unicode name, len <= %d)' % (ha_spec, (' join header %r' % (hb_spec,)) if hb_spec is not None else '', hlen)
     return Obl(name, src, timeout=timeout, expect=expect, finding=finding, meta={'query': text, 'bounds': bounds})
